@@ -101,6 +101,22 @@ CLAIMED["C07"] = dict(
     technique="Coq proof (copy mirrors + disjoint, iso checker soundness) + vm_compute correspondence + edit-frame oracle",
     design="4/C07")
 
+CLAIMED["C16"] = dict(
+    text=("One Buildable's arguments, tags, history log, the global sequence counter and the nestable tracking "
+          "switch as a state machine (History.hstep) built on the proved argument-store model: every primitive "
+          "write appends one entry. Theorems (induction over edit histories): last entry is current, sequence "
+          "numbers strictly increasing and unique, suspended edits append nothing, the store is independent of the "
+          "log. After every step of every generated history the implementation's result, __arguments__, tag sets "
+          "and complete __argument_history__ are compared with the model in Coq; the oracle evaluates the "
+          "property text per step (exactly one entry per changed value, program order, caller attribution, "
+          "suspension, equality/build independent of history), plus update_callable / materialize_defaults / "
+          "copy_with / assign histories and 2-4 concurrent threads."),
+    note=COMMON_NOTE + " Atomicity of itertools.count.__next__ under the GIL is assumed for the thread clause "
+         "(decided by the thread stream only). Tag API entries are attributed to the tagging function (asserted "
+         "by the pinned suite), so caller attribution is checked for value entries.",
+    technique="Coq proof (history invariants by induction over edits) + per-step vm_compute correspondence",
+    design="4/C16")
+
 PENDING_REASON = "check not built yet in this session (work in progress; see DESIGN.md section 4)"
 
 
